@@ -1585,7 +1585,8 @@ func (r *Result) Coq() []byte {
 	b.WriteString("From Coq Require Import List String.\nFrom Sdfx Require Import Sys.Lockset.\nImport ListNotations.\nLocal Open Scope string_scope.\n\n")
 	b.WriteString(coqSummaries("evaluate_summaries", r.Evaluate))
 	b.WriteString(coqSummaries("render_summaries", r.Render))
-	fmt.Fprintf(&b, "Definition batchSize : nat := %d.\n", r.BatchSize)
+	// the batch size of layerYZ.Evaluate is no longer emitted here: harness/sysgen finds it from its use in
+	// the batching loop (Generated/SysProgs.v, used by C09 only), whatever the constant is called
 	return []byte(b.String())
 }
 
@@ -1597,9 +1598,6 @@ func Gen(repo string) (string, []byte, error) {
 	}
 	if len(r.Evaluate) == 0 || len(r.Render) == 0 {
 		return "", nil, fmt.Errorf("effsum: no Evaluate/Render methods found under %s", repo)
-	}
-	if r.BatchSize <= 0 {
-		return "", nil, fmt.Errorf("effsum: const batchSize not found in package render")
 	}
 	return "Effects.v", r.Coq(), nil
 }
